@@ -11,7 +11,7 @@ from ..e1 import engine, gen
 
 RULE = ("2-5 (quick) / 2-16 (thorough) generated tie-free programs (harness batch kinds with a per-computation 'current batch', DebugBatchItem, contexts, "
         "failures, synchronous re-entry) plus a deduplicated function called with the SAME arguments in every thread, with COLLECT_PERF_STATS on, run on as "
-        "many threads. (turnstile) every body statement and flush body is a sync point and Hypothesis draws the sequence of thread turns -- a deterministic, "
+        "many threads; every thread subscribes a handler of its own to its scheduler's flush hooks (it must hear of that thread's flushes only). (turnstile) every body statement and flush body is a sync point and Hypothesis draws the sequence of thread turns -- a deterministic, "
         "shrinkable interleaving; (free-running) sys.setswitchinterval(1e-6), barrier start, repeated runs. non-trivial = >= 2 threads each performed >= 1 "
         "flush and the drawn schedule switches threads >= 3 times (turnstile) / >= 2 threads with >= 1 flush (free-running); distinct = distinct case JSON")
 ASSUMPTIONS = ["operating-system preemption points inside asynq are only sampled (free-running mode); the turnstile mode covers interleavings at harness sync points",
@@ -95,6 +95,14 @@ def thread_body(tid, prog, sync, out):
         # no reset of any kind here: a fresh thread must find fresh per-thread state by itself (an explicit
         # profiler.reset() / scheduler.reset() would hide state that is shared until first reset)
         res["scheduler"] = scheduler.get_scheduler()
+        # the thread's own subscriber on its own scheduler's flush hooks: it hears of this thread's flushes only, from this thread only
+        hook = []
+        my_thread = threading.current_thread()
+
+        def on_flush(batch):
+            hook.append([threading.current_thread() is my_thread, type(batch).__name__])
+        res["scheduler"].on_before_batch_flush.subscribe(on_flush)
+        res["scheduler"].on_after_batch_flush.subscribe(on_flush)
         env = engine.run_program(copy.deepcopy(prog), reset=False, capture=False, on_step=sync)
         tr = engine.trace(env)
         tr["steps"] = [e for e in env.log if e[0] in ("step", "start")]
@@ -146,10 +154,16 @@ def thread_body(tid, prog, sync, out):
         names = [str(s.get("name")).split("(")[0].strip() for s in stats]
         # (the handed-over task was numbered by the thread that created it)
         res["profile"] = sorted(nm.split(".", 1)[1] if nm.endswith(".handed_over") else nm for nm in names)
+        tr["own-subscriber-on-the-flush-hooks"] = list(hook)
         res["active_after"] = scheduler.get_active_task() is None and len(scheduler.get_scheduler()._tasks) == 0
     except BaseException as e:
         res["crash"] = "%s: %s" % (type(e).__name__, str(e)[:200])
     finally:
+        try:
+            res["scheduler"].on_before_batch_flush.unsubscribe(on_flush)
+            res["scheduler"].on_after_batch_flush.unsubscribe(on_flush)
+        except BaseException:
+            pass
         if sync is not None:
             out["__turnstile__"].finish(tid)
 
